@@ -249,7 +249,7 @@ func (g *Gen) goValue(depth int, withBad bool) *GV {
 		return &GV{K: "PN"}
 	case 7:
 		if withBad && g.chance(1, 2) {
-			return &GV{K: "O", Other: g.pick([]string{"chan", "func", "array", "complex"})}
+			return &GV{K: "O", Other: g.pick([]string{"chan", "func", "array", "complex", "intkeymap", "boolkeymap", "mixedkeymap", "structkeymap", "emptyintkeymap", "floatkeymap"})}
 		}
 		return gvInt(7)
 	case 8:
@@ -273,8 +273,11 @@ func (g *Gen) goValue(depth int, withBad bool) *GV {
 	case 11:
 		n := g.n(4)
 		m := &GV{K: "M", NilRef: n == 0 && g.chance(1, 2), Typed: g.chance(1, 3), NKey: g.chance(1, 3)}
+		if !m.NKey && g.chance(1, 4) {
+			m.AKey = true
+		}
 		kind := g.n(4)
-		if m.Typed || m.NKey {
+		if m.Typed || m.NKey || m.AKey {
 			m.NilRef = false
 			n = 1 + g.n(3)
 		}
@@ -918,6 +921,23 @@ func casesC12(g *Gen) []*Case {
 	{
 		c := evalCase("internal_pointers", "{{ r.head }}-{{ r.active }}-{{ r.name }}|{{ r.next.head }}-{{ r.next.active }}-{{ r.next.next ? 1 : 0 }}", gvMap("r", gvNamed(4)))
 		c.Oracle = expectOut("3-3-n|4-3-0")
+		cs = append(cs, c)
+	}
+	// maps whose keys are not strings have no counterpart in a template: the call fails (and says so every time)
+	for _, kind := range []string{"intkeymap", "boolkeymap", "mixedkeymap", "structkeymap", "emptyintkeymap", "floatkeymap"} {
+		for _, wrap := range []func(*GV) *GV{func(x *GV) *GV { return x }, func(x *GV) *GV { return gvList(gvInt(1), x) }, func(x *GV) *GV { return gvMap("in", x) },
+			func(x *GV) *GV { return &GV{K: "P", Elems: []*GV{x}} }} {
+			c := evalCase("maps_with_other_keys", "[{{ 1 }}]", gvMap("ok", gvInt(1), "m", wrap(&GV{K: "O", Other: kind})))
+			c.Oracle = func(c *Case, impl string) string { return wantErr("unsupported type")(impl) }
+			cs = append(cs, c)
+		}
+	}
+	// a map[any]T whose keys are all strings is a string-keyed map
+	{
+		m := gvMap("s", gvInt(1), "t", gvStr("v"), "Name", gvList(gvInt(2)))
+		m.AKey = true
+		c := evalCase("maps_with_other_keys", "{{ m.s }}|{{ m.t }}|{{ m.Name[0] }}|{{ m }}", gvMap("m", m))
+		c.Oracle = expectOut("1|v|2|{Name: 2, s: 1, t: v}")
 		cs = append(cs, c)
 	}
 	// root keys that look like names an engine might keep for itself: only `loop` is reserved
